@@ -128,6 +128,8 @@ def mk_bin(op, a, b):
         return a
     if op == "Add" and a[0] == "int" and a[1] == 0:
         return b
+    if op == "Sub" and a == b and a[0] != "int":
+        return ("int", 0, "usize")
     # a / n * n  is  a - a % n   (integers; one canonical spelling so that equivalent arithmetic compares equal)
     if op == "Mul":
         for x, y in ((a, b), (b, a)):
@@ -709,6 +711,11 @@ class Enumerator:
                 return ("agg", "tuple", mk_bin(base, a, b), ("ovf", base, a, b))
             if op.endswith("Unchecked"):
                 op = op[:-len("Unchecked")]
+            if op == "Sub" and a[0] != "int":
+                # the standing no-underflow assumption, made explicit: rules that must *discharge* it (C01 RAW) read it here
+                ob = ("nounder", a, b)
+                if ob not in st["assumed"]:
+                    st["assumed"].append(ob)
             return mk_bin(op, a, b)
         if k == "unop":
             a = self.operand(st, r["a"])
